@@ -111,6 +111,17 @@ def run_one(module, case, res, known_preds, case_timeout, reraise=True):
     except CaseTimeout:
         signal.alarm(0)
         res.timeouts += 1
+        if getattr(module, "TIMEOUT_IS_VIOLATION", False):
+            # only for properties whose cases take milliseconds and where non-termination is the failure mode looked for
+            kind = "timeout"
+            cur = res.violations.get(kind)
+            sz = size_of(case)
+            if cur is None or sz < cur["size"]:
+                res.violations[kind] = {"case": case, "msg": f"case did not finish within {case_timeout} s (normal: milliseconds)",
+                                        "detail": {"kind": kind}, "size": sz, "count": (cur["count"] if cur else 0) + 1}
+            else:
+                cur["count"] += 1
+            return "violation"
         return "timeout"
     except (StopRun, KeyboardInterrupt):
         signal.alarm(0)
@@ -218,6 +229,8 @@ def run_replays(module, pid, known, tier):
     nrep = 0
     res = ShardResult()
     timeout = 120
+    if getattr(module, "TIMEOUT_IS_VIOLATION", False):
+        timeout = getattr(module, "CASE_TIMEOUT", {"quick": 10, "thorough": 60})[tier]
     for path in sorted(glob.glob(os.path.join(ROOT, "replays", pid, "*.json"))):
         with open(path) as f:
             rec = json.load(f)
